@@ -269,6 +269,13 @@ def box_into_vec(it, args, n, f):
     raise Unrecognised("vec! of %r" % (a,))
 
 
+def show(it, v):
+    """printable form of a pushed / popped item: plain index unknowns are resolved (no fork)"""
+    if isinstance(v, UnkV) and it.ty(v.ty)["t"] == "prim" and it.ty(v.ty)["s"] != "bool":
+        v = it.val_force(v)
+    return repr(v)
+
+
 def node_state(it, idx):
     """snapshot of the arena slot an index value denotes (for pushes of indices): presence of its
     value and of its links as known on this path ('?' = not inspected)"""
@@ -296,7 +303,7 @@ def vec_push(it, args, n, f):
     v = vec_of(it, args[0])
     if isinstance(v, VecV):
         v.obj.items.append(args[1])
-        it.emit("vec_push", vec=v.obj.name, item=repr(args[1]), line=n.get("line"), state=node_state(it, args[1]))
+        it.emit("vec_push", vec=v.obj.name, item=show(it, args[1]), line=n.get("line"), state=node_state(it, args[1]))
         return UnitV()
     if isinstance(v, ArenaVecV):
         node = it.val_force(args[1])
@@ -323,7 +330,7 @@ def vec_pop(it, args, n, f):
     o = v.obj
     if o.items:
         x = o.items.pop()
-        it.emit("vec_pop", vec=o.name, item=repr(x), known=True)
+        it.emit("vec_pop", vec=o.name, item=show(it, x), known=True)
         return some(x)
     if o.base is None:
         it.emit("vec_pop", vec=o.name, item=None, known=True)
@@ -391,7 +398,7 @@ def vec_extend(it, args, n, f):
         raise Unrecognised("extend on %r" % (v,))
     for x in src.items:
         v.obj.items.append(x)
-        it.emit("vec_push", vec=v.obj.name, item=repr(x), line=n.get("line"))
+        it.emit("vec_push", vec=v.obj.name, item=show(it, x), line=n.get("line"))
     return UnitV()
 
 
@@ -544,13 +551,29 @@ def p_is_bit_set(it, args, n, f):
 
 
 def p_lcp(it, args, n, f):
-    a, b = it.psym(args[0]), it.psym(args[1])
+    a, b = it.canon(it.psym(args[0])), it.canon(it.psym(args[1]))
     nm = "lcp(%s,%s)" % (a, b)
-    # the common prefix covers both operands; it is strictly shorter when they are disjoint
     ra = it.relation(a, b)
-    if ra[0] == DISJ and ra[2] != "samelen" or ra[0] == DISJ:
+    # C17 (assumed): the common prefix covers both operands, strictly when they are disjoint;
+    # a prefix that strictly covers both on the same side strictly covers their common prefix
+    if ra[0] == DISJ:
         it.assume_rel(nm, a, (SUP, None, None))
         it.assume_rel(nm, b, (SUP, None, None))
+        for x in sorted(it.rels.syms()):
+            if x in (a, b, nm):
+                continue
+            if it.rels.base(x, a) == SUP and it.rels.base(x, b) == SUP:
+                sa, sb = side_of(it, x, a), side_of(it, x, b)
+                if sa is not None and sb is not None:
+                    if sa == sb:
+                        it.assume_rel(x, nm, (SUP, None, None))
+                        it.sides[(x, nm)] = sa
+                    else:
+                        it.assume_rel(x, nm, (EQ, None, None))
+    elif ra[0] in (EQ, SUP):
+        it.assume_rel(nm, a, (EQ, None, None))
+    else:
+        it.assume_rel(nm, b, (EQ, None, None))
     return SymV(nm)
 
 
@@ -579,18 +602,36 @@ PREFIX_ORACLE = {
 }
 
 
-@model("prefix_trie::to_right", doc="branch side of child under parent: one lazy boolean per ordered pair")
+def side_of(it, a, b):
+    """branch side of b under a, if the facts of this path determine it (a must strictly contain b
+    for the side to mean anything).  Rules (bit-vector facts of C17, assumed here):
+      S1  a known child link gives the side;
+      S2  to_right(a,u) = to_right(a,v) when a ⊋ u, a ⊋ v and u, v are comparable;
+      S3  x, y disjoint: to_right(lcp(x,y), y) = !to_right(lcp(x,y), x)."""
+    a, b = it.canon(a), it.canon(b)
+    if (a, b) in it.sides:
+        return it.sides[(a, b)]
+    for (x, y), sd in list(it.sides.items()):
+        if x != a:
+            continue
+        if it.rels.base(a, y) == SUP and it.rels.base(a, b) == SUP and it.rels.base(y, b) in (EQ, SUP, SUB):
+            return sd
+    if a.startswith("lcp("):
+        for (x, y), sd in list(it.sides.items()):
+            if x == a and y != b and a == "lcp(%s,%s)" % (y, b) or (x == a and y != b and a == "lcp(%s,%s)" % (b, y)):
+                if it.rels.base(y, b) == DISJ:
+                    return not sd
+    return None
+
+
+@model("prefix_trie::to_right", doc="branch side of child under parent: one lazy boolean per ordered pair, consistent with S1-S3")
 def to_right(it, args, n, f):
-    a, b = it.psym(args[0]), it.psym(args[1])
-    h = it.hooks.get("to_right")
-    if h is not None:
-        r = h(it, a, b)
-        if r is not None:
-            return r
-    side = it.child_side.get((a, b))
-    if side is not None:
-        return BoolV(side == "right")
-    return BoolV(it.choose("to_right:%s|%s" % (a, b), [False, True]))
+    a, b = it.canon(it.psym(args[0])), it.canon(it.psym(args[1]))
+    sd = side_of(it, a, b)
+    if sd is None:
+        sd = it.choose("to_right:%s|%s" % (a, b), [False, True])
+    it.sides[(a, b)] = sd
+    return BoolV(sd)
 
 
 @model("std::cmp::Ord::cmp", doc="ordering of two masks, from the relation oracle")
